@@ -37,3 +37,45 @@ Definition wf_table (t : table) : Prop :=
   NoDup (cols t) /\ Forall (fun r => List.length r = List.length (cols t)) (rows t).
 
 Definition getcol (t : table) (c : string) : list val := map (fun r => get (cols t) r c) (rows t).
+
+(* ------------------------------------------------------------------ *)
+(* index_of / get / set_nth lemmas *)
+Section IndexLemmas.
+  Lemma index_of_None c cs : index_of c cs = None <-> mem c cs = false.
+  Proof. induction cs as [|x t IH]; simpl; [tauto|].
+    destruct (eq_dec c x); [split; discriminate|].
+    destruct (index_of c t); simpl; split; intros E; try discriminate; try reflexivity.
+    - apply IH in E. discriminate.
+    - apply IH. reflexivity. Qed.
+
+  Lemma index_of_Some_mem c cs i : index_of c cs = Some i -> mem c cs = true.
+  Proof. intros E. destruct (mem c cs) eqn:M; [reflexivity|]. apply index_of_None in M. congruence. Qed.
+
+  Lemma index_of_nth_error c cs i : index_of c cs = Some i -> nth_error cs i = Some c.
+  Proof. revert i. induction cs as [|x t IH]; simpl; intros i E; [discriminate|].
+    destruct (eq_dec c x) as [->|n]; [inversion E; reflexivity|].
+    destruct (index_of c t) as [j|]; simpl in E; [|discriminate]. inversion E; subst. simpl. apply IH. reflexivity. Qed.
+
+  Lemma index_of_lt c cs i : index_of c cs = Some i -> (i < List.length cs)%nat.
+  Proof. intros E. apply index_of_nth_error in E. apply nth_error_Some. congruence. Qed.
+
+  Lemma index_of_In c cs : In c cs -> exists i, index_of c cs = Some i.
+  Proof. intros I. destruct (index_of c cs) as [i|] eqn:E; [exists i; reflexivity|].
+    apply index_of_None in E. apply mem_false in E. contradiction. Qed.
+
+  Lemma index_of_app_l c cs ds i : index_of c cs = Some i -> index_of c (cs ++ ds) = Some i.
+  Proof. revert i. induction cs as [|x t IH]; simpl; intros i E; [discriminate|].
+    destruct (eq_dec c x); [exact E|].
+    destruct (index_of c t) as [j|]; simpl in E; [|discriminate]. rewrite (IH j eq_refl). exact E. Qed.
+
+  Lemma set_nth_length i v r : List.length (set_nth i v r) = List.length r.
+  Proof. revert i. induction r as [|x t IH]; intros [|i]; simpl; try reflexivity. rewrite IH. reflexivity. Qed.
+
+  Lemma nth_set_nth_other i j v r d : i <> j -> nth j (set_nth i v r) d = nth j r d.
+  Proof. revert i j. induction r as [|x t IH]; intros [|i] [|j] N; simpl; try reflexivity; try congruence.
+    apply IH. congruence. Qed.
+
+  Lemma nth_set_nth_same i v r d : (i < List.length r)%nat -> nth i (set_nth i v r) d = v.
+  Proof. revert i. induction r as [|x t IH]; intros [|i] L; simpl in *; try reflexivity; try (exfalso; inversion L; fail).
+    apply IH. apply Nat.succ_lt_mono. exact L. Qed.
+End IndexLemmas.
